@@ -5,6 +5,7 @@ CONSTANTS
   MaxSeg = 2
   WatchPerSegment = TRUE
   SwapInstallsOld = TRUE
+  ResetOnRoll = FALSE
   Reader = {r1}
 PROPERTY EveryAppendCompletes
 CHECK_DEADLOCK FALSE
